@@ -345,7 +345,7 @@ def check_fixed_size(out, facts, S):
         key = '%s [%s]' % (fkey(f), cfg)
         ev = sym.Evaluator(facts)
         ctx = sym.Ctx(ev, f)
-        v, t = ev.ev(f['thir'], ctx)
+        v, t = sym.fn_value(ev, f, ctx)
         v = strip(v)
         st = T.from_json(f['self_ty'])
         w = S.wire_type(st)
